@@ -19,6 +19,13 @@ import Sqfs.Proofs.FailStopBlockProc
 namespace Sqfs.C13
 open Sqfs.FailStop
 
+/-! the two configurations used by the instantiating examples below -/
+
+/-- a gensquashfs run with a pack file, a pack directory, a relative output name, three files, an export table -/
+def exCfg : Cfg := { tool := .gensquashfs, packFile := true, packDir := true, relOut := true, nfiles := 3, exportable := true }
+/-- a tar2sqfs run: directory, file, symbolic link, an entry outside the new root -/
+def exTar : Cfg := { tool := .tar2sqfs, entries := [{}, {}, { link := true }, { skipped := true }] }
+
 /-- When every result is checked the phases compose: the run is one walk over the whole program. -/
 theorem run_checked {v : Variant} (hA : AllChecked v) (c : Cfg) (fs : List Bool) :
     (run v c fs).trace = (runSites v c 0 (program v c) fs {}).2.2 ∧
@@ -41,6 +48,9 @@ theorem run_checked {v : Variant} (hA : AllChecked v) (c : Cfg) (fs : List Bool)
       · simp only []
         rcases h4 : runSites v c 0 (finishSites c) fs3 t3 with ⟨ok4, fs4, t4⟩
         cases ok4 <;> simp
+
+example := run_checked current_allChecked exCfg (single 24)
+example := run_checked fixed_allChecked exTar (single 5)
 
 /-- **Exit status 0 is assigned only at the end** (every variant, every script): a run that exits 0 went through
     `sqfs_writer_finish` returning 0, reached `sqfs_writer_cleanup` with `EXIT_SUCCESS`, no call site reported a
@@ -74,6 +84,9 @@ theorem status_success_only_at_end (v : Variant) (c : Cfg) (fs : List Bool) :
           simp only []
           rw [e4, e3, e2, e1]
 
+example := status_success_only_at_end .current exCfg [] (by decide)
+example := status_success_only_at_end .snapshot exTar [false, false] (by decide)
+
 /-- With every result checked (/repo as it is, and the repaired source), exit 0 means that **no modelled step
     failed**: the script has no fault at any position of the program, and every site of the program ran. -/
 theorem status_success_no_fault {v : Variant} (hA : AllChecked v) (c : Cfg) (fs : List Bool) :
@@ -89,6 +102,9 @@ theorem status_success_no_fault {v : Variant} (hA : AllChecked v) (c : Cfg) (fs 
     rw [hft] at ht
     refine ⟨(firstTrue_none_iff _ _).1 hft, ?_⟩
     rw [ht]; simp [okAll_ran]
+
+example := status_success_no_fault current_allChecked exCfg [] (by decide)
+example := status_success_no_fault fixed_allChecked exTar [false] (by decide)
 
 /-- **What `sqfs_writer_cleanup(status)` does** (every variant): reached with a non-zero status it calls
     `unlink` on the stored name; the output file is gone afterwards exactly when that name, resolved against the
@@ -116,6 +132,10 @@ theorem cleanup_unlinks_the_stored_name (v : Variant) (c : Cfg) (fs : List Bool)
         · cases hn : nameResolves c t4 <;> simp [cleanup, unlinkOut, hn]
         · simp
 
+/-- a failure while packing, after `chdir`: /repo as it is leaves the file, the repaired source removes it -/
+example := cleanup_unlinks_the_stored_name .current exCfg (single 24) (by decide) (by decide)
+example := cleanup_unlinks_the_stored_name .fixed exCfg (single 24) (by decide) (by decide)
+
 /-- The paths on which the cleanup is **not** reached, precisely: a failure reported by a site that runs before
     the writer exists (tar2sqfs.c:20-34) or inside `sqfs_writer_init`; `main` then returns `EXIT_FAILURE`
     directly (mkfs.c:108) or jumps past the cleanup (tar2sqfs.c:38 `goto out_it`). -/
@@ -141,6 +161,9 @@ theorem cleanup_not_reached_only_in_init (v : Variant) (c : Cfg) (fs : List Bool
       · simp only []
         rcases h4 : runSites v c 0 (finishSites c) fs3 t3 with ⟨ok4, fs4, t4⟩
         cases ok4 <;> simp
+
+example := cleanup_not_reached_only_in_init .fixed exCfg (single 7) (by decide)
+example := cleanup_not_reached_only_in_init .current exTar (single 1) (by decide)
 
 /-- **A failing run of the repaired packers never leaves the output file behind**, whichever site fails, whatever
     the output name looks like and wherever `pack_files` went (fixes/C13-relative-output-with-packdir.patch).
@@ -169,6 +192,9 @@ theorem failure_never_leaves_output (c : Cfg) (fs : List Bool) :
         rcases h4 : runSites .fixed c 0 (finishSites c) fs3 t3 with ⟨ok4, fs4, t4⟩
         have s4 := safe_phase _ _ _ _ _ _ _ _ (chdirPack_not_mem_finish c) h4 s3
         cases ok4 <;> simp [cleanup, unlinkOut, nameResolves_of_safe c t4 s4]
+
+example := failure_never_leaves_output exCfg (single 24) (by decide)
+example := failure_never_leaves_output exCfg (single 7) (by decide)
 
 /-  Full statement for /repo as it is — FALSE (Witness.C13.not_failure_never_leaves_output_current):
       theorem failure_never_leaves_output_current (c : Cfg) (fs : List Bool) :
@@ -226,37 +252,73 @@ theorem failure_never_leaves_output_partial (v : Variant) (hv : v.initUnlinks = 
         have n4 := key _ _ _ _ _ _ (Or.inr (Or.inr (Or.inr rfl))) h4 n3
         cases ok4 <;> simp [cleanup, unlinkOut, n4]
 
-/-- **A failing run says why**: the site whose failure is reported prints a diagnostic (every variant with the
-    export-table repair, i.e. /repo as it is and the repaired source). -/
-theorem failure_has_diagnostic (v : Variant) (hv : v.exportChecked = true) (c : Cfg) (fs : List Bool) :
-    (run v c fs).status ≠ 0 → ∃ s, (run v c fs).trace.failed = some s ∧ diagOnFail v s = true := by
-  have hd : ∀ s, diagOnFail v s = true := by
-    intro s; cases s <;> simp [diagOnFail, hv]
-  unfold run
+/-- both disjuncts of the side condition: absolute output name; no pack directory -/
+example := failure_never_leaves_output_partial .current rfl { exCfg with relOut := false } (single 24) (Or.inl rfl) (by decide)
+example := failure_never_leaves_output_partial .current rfl { exCfg with packDir := false } (single 24) (Or.inr rfl) (by decide)
+
+/-- **A failing run reports a site of the program, and stops there** (every variant, every configuration, every
+    script): a run that does not exit 0 has recorded exactly one failing site `s`; `s` is a site of the program of
+    that configuration, and it is the *last* site the run executed (nothing runs after the reported failure —
+    this is the control-flow half of "a failing run says why"). -/
+theorem failure_reports_site (v : Variant) (c : Cfg) (fs : List Bool) :
+    (run v c fs).status ≠ 0 →
+      ∃ s, s ∈ program v c ∧ (run v c fs).trace.failed = some s ∧ (run v c fs).trace.ran.getLast? = some s := by
+  unfold run program
   rcases h1 : runSites v c 0 (preSites c) fs {} with ⟨ok1, fs1, t1⟩
   cases ok1
   · intro _
-    obtain ⟨s, _, hf⟩ := runSites_false_failed _ _ _ _ _ _ _ _ h1
-    exact ⟨s, hf, hd s⟩
+    obtain ⟨s, hs, hf, hl⟩ := runSites_false_failed_last _ _ _ _ _ _ _ _ h1
+    exact ⟨s, by simp [hs], hf, hl⟩
   · simp only []
     rcases h2 : runSites v c 0 (initSites c) fs1 t1 with ⟨ok2, fs2, t2⟩
     cases ok2
     · intro _
-      obtain ⟨s, _, hf⟩ := runSites_false_failed _ _ _ _ _ _ _ _ h2
-      exact ⟨s, hf, hd s⟩
+      obtain ⟨s, hs, hf, hl⟩ := runSites_false_failed_last _ _ _ _ _ _ _ _ h2
+      exact ⟨s, by simp [hs], hf, hl⟩
     · simp only []
       rcases h3 : runSites v c 0 (bodySites v c) fs2 t2 with ⟨ok3, fs3, t3⟩
       cases ok3
       · intro _
-        obtain ⟨s, _, hf⟩ := runSites_false_failed _ _ _ _ _ _ _ _ h3
-        exact ⟨s, hf, hd s⟩
+        obtain ⟨s, hs, hf, hl⟩ := runSites_false_failed_last _ _ _ _ _ _ _ _ h3
+        exact ⟨s, by simp [hs], hf, hl⟩
       · simp only []
         rcases h4 : runSites v c 0 (finishSites c) fs3 t3 with ⟨ok4, fs4, t4⟩
         cases ok4
         · intro _
-          obtain ⟨s, _, hf⟩ := runSites_false_failed _ _ _ _ _ _ _ _ h4
-          exact ⟨s, hf, hd s⟩
+          obtain ⟨s, hs, hf, hl⟩ := runSites_false_failed_last _ _ _ _ _ _ _ _ h4
+          exact ⟨s, by simp [hs], hf, hl⟩
         · simp
+
+/-- instance: the 31st site of the example run fails (`sqfs_id_table_write`); it is reported and is the last one run -/
+example : ∃ s, s ∈ program .current exCfg ∧ (run .current exCfg (single 30)).trace.failed = some s ∧
+    (run .current exCfg (single 30)).trace.ran.getLast? = some s :=
+  failure_reports_site .current exCfg (single 30) (by decide)
+example : (run .current exCfg (single 30)).trace.failed = some .idTable := by decide
+
+/-- **Every modelled site prints a diagnostic when it fails** — *definition-level*: this is a fact about the
+    hand-written table `diagOnFail` (one line per site of the C sources; all-true once the export-table repair is
+    in, i.e. for /repo as it is and the repaired source), not about the control flow.  Its tie to the C code is the
+    per-run comparison of the real tools' stderr with the table (tools/checks/c13.py). -/
+theorem all_sites_have_diagnostic (v : Variant) (hv : v.exportChecked = true) : ∀ s, diagOnFail v s = true := by
+  intro s; cases s <;> simp [diagOnFail, hv]
+
+example : ∀ s, diagOnFail .current s = true := all_sites_have_diagnostic .current rfl
+/-- … and the table is not constant: the snapshot returned -1 silently for the export table -/
+example : diagOnFail .snapshot .exportWrite = false ∧ diagOnFail .snapshot .idTable = true := by decide
+
+/-- **A failing run says why**: the run reports a site of the program, that site is the last one executed
+    (`failure_reports_site` — the part that depends on the run), and the reported site prints a diagnostic
+    (`all_sites_have_diagnostic` — a property of the table `diagOnFail` alone, the same for every run; every
+    variant with the export-table repair, i.e. /repo as it is and the repaired source). -/
+theorem failure_has_diagnostic (v : Variant) (hv : v.exportChecked = true) (c : Cfg) (fs : List Bool) :
+    (run v c fs).status ≠ 0 →
+      ∃ s, s ∈ program v c ∧ (run v c fs).trace.failed = some s ∧ (run v c fs).trace.ran.getLast? = some s ∧
+        diagOnFail v s = true := by
+  intro h
+  obtain ⟨s, hs, hf, hl⟩ := failure_reports_site v c fs h
+  exact ⟨s, hs, hf, hl, all_sites_have_diagnostic v hv s⟩
+
+example := failure_has_diagnostic .current rfl exCfg (single 30) (by decide)
 
 /-- **A run with exit 0 performed exactly the fault-free sequence**: same output-producing steps in the same
     order, same progress messages, same sites — the whole result equals the fault-free one (every variant in
@@ -292,6 +354,13 @@ theorem exit0_output_eq_fault_free {v : Variant} (hA : AllChecked v) (c : Cfg) (
     rw [runSites_clean _ _ _ _ _ l4]
     simp [cleanup]
   rw [key fs hff, faultFree, key [] (allFalse_nil _)]
+
+/-- non-degenerate scripts (for `fs = []` the statement is `rfl`): explicit "no fault" entries, and a fault scheduled
+    past the end of the program -/
+example : run .current exCfg [false, false] = faultFree .current exCfg :=
+  exit0_output_eq_fault_free current_allChecked exCfg [false, false] (by decide)
+example : run .current exCfg (single 100) = faultFree .current exCfg :=
+  exit0_output_eq_fault_free current_allChecked exCfg (single 100) (by decide)
 
 /-- **The first failure stops the run**: if the first fault of the script is at position `k` of the program, the
     run exits 1, the sites executed are exactly the first `k+1` of the program (the failing one last), the
@@ -337,6 +406,9 @@ theorem first_failure_stops {v : Variant} (hA : AllChecked v) (c : Cfg) (fs : Li
   · rw [ht]; simp [failAt, okAll_ops]
   · rw [ht]; simp [failAt, List.getD_eq_getElem?_getD, List.getElem?_eq_getElem hk]
 
+example := first_failure_stops fixed_allChecked exCfg (single 25) 25 (by decide) (allFalse_single 25) (single_getD 25)
+example := first_failure_stops current_allChecked exTar (single 3) 3 (by decide) (allFalse_single 3) (single_getD 3)
+
 /-! ### the readers: sqfs2tar and rdsquashfs -/
 
 /-- **sqfs2tar / rdsquashfs exit 0 only when nothing failed**: the script has no fault at any site of `main` and
@@ -355,6 +427,8 @@ theorem reader_status_success_no_fault (c : RCfg) (fs : List Bool) :
     · simp [okAll_ran]
     · simp [okAll_failed]
 
+example := reader_status_success_no_fault { sqfs2tar := true, compressed := true, nentries := 3 } [] (by decide)
+
 /-- **The first failure stops sqfs2tar / rdsquashfs**: exit 1, the sites executed are the first `k+1`, the
     `k`-th is the one reported. -/
 theorem reader_first_failure_stops (c : RCfg) (fs : List Bool) (k : Nat) :
@@ -370,6 +444,9 @@ theorem reader_first_failure_stops (c : RCfg) (fs : List Bool) (k : Nat) :
   · simp only [failAt, okAll_ran, List.nil_append]
     exact (take_succ_getD _ _ _ hk).symm
   · simp [failAt, List.getD_eq_getElem?_getD, List.getElem?_eq_getElem hk]
+
+example := reader_first_failure_stops { sqfs2tar := false, op := .cat, nsplice := 3 } (single 14) 14 (by decide)
+  (allFalse_single 14) (single_getD 14)
 
 /-! ### second layer: the block processor with fallible primitives -/
 
@@ -413,12 +490,20 @@ theorem blockproc_session_propagates {v : Variant} (hv : ∀ p, BP.checked v p =
     · have : r = r0 := by simpa using hr
       subst this; exact h1
 
+/-- a four-call session `begin_file; append 5; end_file; sync` in which the fourth primitive drawn fails (the block
+    allocation inside `append`): the session has two results, the second one faulted, is an error and is the last -/
+example : (BP.session .current 4 [.beginFile true false false false, .append 5 false false, .endFile, .sync] {}
+      [false, false, false, true]).map (fun r => (r.faulted, r.ok)) = [(false, true), (true, false)] := by decide +kernel
+example : ∀ r ∈ BP.session .current 4 [.beginFile true false false false, .append 5 false false, .endFile, .sync] {}
+      [false, false, false, true], r.faulted = true → r.ok = false :=
+  blockproc_session_propagates BP.current_checked 4 _ {} _
+/-- `blockproc_error_propagates` applied: the inode allocation of `begin_file` fails; a failing truncate in `sync` -/
+example := blockproc_error_propagates BP.current_checked 4 (.beginFile true false false false) {} [true] (by decide)
+example := blockproc_error_propagates BP.current_checked 4 .sync
+    { backlog := 1, pool := [{ size := 0, last := true, dupBlocks := true }] } [false, false, true] (by decide)
+
 /-! ### non-vacuity: the hypotheses above are satisfiable on non-trivial instances -/
 
-/-- a gensquashfs run with a pack file, a pack directory, a relative output name, three files, an export table -/
-def exCfg : Cfg := { tool := .gensquashfs, packFile := true, packDir := true, relOut := true, nfiles := 3, exportable := true }
-/-- a tar2sqfs run: directory, file, symbolic link, an entry outside the new root -/
-def exTar : Cfg := { tool := .tar2sqfs, entries := [{}, {}, { link := true }, { skipped := true }] }
 
 example : (run .fixed exCfg []).status = 0 ∧ (run .current exCfg []).status = 0 := by decide
 example : (run .fixed exCfg []).trace.ops.length = 14 := by decide
